@@ -5,6 +5,7 @@ import (
 	"database/sql"
 	"database/sql/driver"
 	"errors"
+	"fmt"
 	"io"
 	"reflect"
 	"strconv"
@@ -185,6 +186,17 @@ func (c *Conn) Begin() (driver.Tx, error) {
 func (c *Conn) BeginTx(ctx context.Context, opts driver.TxOptions) (driver.Tx, error) {
 	if c.dead() {
 		return nil, driver.ErrBadConn
+	}
+	if lvl := sql.IsolationLevel(opts.Isolation); lvl != sql.LevelDefault {
+		// as go-sql-driver/mysql does: the level is set for the next transaction only
+		name := map[sql.IsolationLevel]string{sql.LevelReadUncommitted: "READ UNCOMMITTED", sql.LevelReadCommitted: "READ COMMITTED",
+			sql.LevelRepeatableRead: "REPEATABLE READ", sql.LevelSerializable: "SERIALIZABLE"}[lvl]
+		if name == "" {
+			return nil, fmt.Errorf("mysql: unsupported isolation level: %d", opts.Isolation)
+		}
+		if _, err := c.s.run(ctx, "SET TRANSACTION ISOLATION LEVEL "+name, nil, nil); err != nil {
+			return nil, err
+		}
 	}
 	q := "START TRANSACTION"
 	if opts.ReadOnly {
